@@ -169,15 +169,7 @@ Fixpoint itoks (k : kctx) (srcs : list tref) (c : ctx) (i : item) {struct i} : r
   | INot x => a <- itoks k srcs (set_subc c true) x ;; Ok (KText "NOT " :: a)
   end.
 
-(* the tables of the field leaves of an item's own terms (not descending into sub-queries) *)
-Fixpoint item_tables (i : item) : list (option tref) :=
-  match i with
-  | IT t | IIn t _ _ | ICmp _ t _ => field_tables t
-  | ISub _ | IExists _ _ => []
-  | IFunc _ args _ => (fix go (l : list item) : list (option tref) := match l with [] => [] | x :: r => item_tables x ++ go r end) args
-  | ICplx _ l r => item_tables l ++ item_tables r
-  | INot x => item_tables x
-  end.
+(* [Query.item_tables i]: the tables of the field leaves of an item's own terms (not descending into sub-queries) *)
 
 (* ------------------------------------------------------------------------------------------- *)
 (* 3. one statement, clause by clause                                                           *)
@@ -194,11 +186,12 @@ Definition jsources (joins : list (jhow * source * jcond)) : list source := map 
 Definition stmt_srcs (base : list tref) (from : list source) (joins : list (jhow * source * jcond)) : list tref :=
   let nm := stmt_names base from joins in src_refs from (fst nm) ++ src_refs (jsources joins) (snd nm).
 
-(* _validate_table on the WHERE criterion: a field's table is neither a source nor the target *)
+(* _validate_table on the WHOLE WHERE criterion (fields_() does not descend into sub-queries): a field's table is neither
+   a source nor the target *)
 Definition out_of_scope (scope srcs : list tref) (o : option tref) : bool :=
   match o with Some tb => negb (existsb (tref_eqb (resolve_tref srcs tb)) scope) | None => false end.
 Definition foreign_in (scope srcs : list tref) (wheres : option item) : bool :=
-  match wheres with Some (IT w) => existsb (out_of_scope scope srcs) (field_tables w) | _ => false end.
+  existsb (out_of_scope scope srcs) (match wheres with Some w => item_tables w | None => [] end).
 Definition first_is_builder (from : list source) : bool :=
   match from with SrcQ y :: _ => is_builder y | _ => false end.
 
